@@ -362,6 +362,23 @@ def _gen_pstate(rng, q, kind=None, compiled=None):
     return {"q": q, "kind": kind, "gates": gates, "nparams": npar, "compiled": compiled}
 
 
+def hetero_qs(rng, q, n, lo=1, hi=4):
+    """qubit count per input: all `q`, or (40 %) a heterogeneous batch — different widths in one batch, in any order
+    (larger before smaller and the reverse); -> (list of widths, smallest width)"""
+    if n < 2 or rng.random() >= 0.4:
+        return [q] * n, q
+    qs = [rng.randint(lo, hi) for _ in range(n)]
+    if len(set(qs)) == 1:
+        qs[rng.randrange(n)] = qs[0] % hi + 1 if qs[0] % hi + 1 >= lo else lo
+    if rng.random() < 0.5:  # a wide input first, a narrow one right after it
+        qs.sort(reverse=True)
+        k = rng.randrange(n)
+        qs = qs[k:] + qs[:k]
+        if qs[0] <= qs[1]:
+            qs[0], qs[1] = max(qs), min(qs)
+    return qs, min(qs)
+
+
 def gen_params(rng, npar, n):
     return [[rng.randint(-3, 4) for _ in range(npar)] for _ in range(n)]
 
@@ -793,12 +810,13 @@ def _mk_est_ep(fam, shape):
         b = {"q": q}
         if shape == "ops-state":
             b.update(ops=[gen_operator(rng, q, i) for i in range(n)], states=[gen_state(rng, q, None, **kw)])
-        elif shape == "op-states":
-            bits = distinct_bits(rng, q, n)
-            b.update(ops=[bit_reader(q)], states=[gen_state(rng, q, x, **kw) for x in bits])
         else:
-            bits = distinct_bits(rng, q, n)
-            b.update(ops=[gen_operator(rng, q, i) for i in range(n)], states=[gen_state(rng, q, x, **kw) for x in bits])
+            # several states: possibly of different widths; every operator acts within the narrowest one
+            qs, qmin = hetero_qs(rng, q, n)
+            b["q"], b["qmax"] = qmin, max(qs + [qmin])
+            sts = [gen_state(rng, qi, rng.randrange(2**qi) if qi != qmin else x, **kw)
+                   for qi, x in zip(qs, distinct_bits(rng, qmin, n))]
+            b.update(ops=[bit_reader(qmin)] if shape == "op-states" else [gen_operator(rng, qmin, i) for i in range(n)], states=sts)
         if noisy:
             b["noise"] = noise
         b["form"] = rng.choice(["list", "list", "tuple"])
@@ -924,12 +942,14 @@ def _mk_sampler_ep(fam):
         force = (None, "compiled", "vector")[variant]
         noise = rng.choice(NOISES) if noisy else rng.choice(["empty", "bitflip0"])
         items = []
-        for i, x in enumerate(bits):
+        qs, qmin = hetero_qs(rng, q, n)  # circuits / states of different widths in one batch
+        for i, (x, qi) in enumerate(zip(bits, qs)):
             shots = 3 + i if not (big and rng.random() < 0.15) else rng.choice([1500, 1500, 2**31]) + i
+            x = x if qi == q else rng.randrange(2**qi)
             if fam == "simulator.state_sampler":
-                items.append({"state": gen_state(rng, q, x, force=force), "shots": shots})
+                items.append({"state": gen_state(rng, qi, x, force=force), "shots": shots})
             else:
-                st = gen_state(rng, q, x, vector_ok=False, compiled_ok=(fam == "sampler.vector"), force=force,
+                st = gen_state(rng, qi, x, vector_ok=False, compiled_ok=(fam == "sampler.vector"), force=force,
                                noise=noise if noisy else None)
                 items.append({"state": st, "shots": shots})
         return {"q": q, "items": items, "noise": noise, "form": rng.choice(["list", "list", "tuple", "iter"])}
@@ -986,10 +1006,11 @@ def _mk_overlap_ep(parametric):
             ps1, ps2 = gen_pstate(rng, q, compiled=False), gen_pstate(rng, q, compiled=False)
             return {"q": q, "ket": ps1, "bra": ps2, "kparams": gen_params(rng, ps1["nparams"], n),
                     "bparams": gen_params(rng, ps2["nparams"], n), "weights": [2**i for i in range(n)], "form": form}
-        kb = [rng.randrange(2**q) for _ in range(n)]
-        bb = [k if rng.random() < 0.5 else rng.randrange(2**q) for k in kb]
-        return {"q": q, "kets": [gen_state(rng, q, x, compiled_ok=False) for x in kb],
-                "bras": [gen_state(rng, q, x, compiled_ok=False) for x in bb], "weights": [2**i for i in range(n)], "form": form}
+        qs, _ = hetero_qs(rng, q, n, hi=3)  # every pair has one width; the pairs of a batch may differ
+        kb = [rng.randrange(2**qi) for qi in qs]
+        bb = [k if rng.random() < 0.5 else rng.randrange(2**qi) for k, qi in zip(kb, qs)]
+        return {"q": q, "kets": [gen_state(rng, qi, x, compiled_ok=False) for x, qi in zip(kb, qs)],
+                "bras": [gen_state(rng, qi, x, compiled_ok=False) for x, qi in zip(bb, qs)], "weights": [2**i for i in range(n)], "form": form}
 
     def call(b, ex, c, memo=None):
         import quri_parts.qulacs.overlap_estimator as O
@@ -1267,18 +1288,39 @@ def classify_and_report(ctx, ep, b, exspec, c, seq, conc, ship_key, n, extra=Non
     return key
 
 
-def judge_single(ctx, ep, b, exspec, c, seq, conc):
+def judge_single(ctx, ep, b, exspec, c, seq, conc, kind="thread"):
     """every result of the batch equals what the plain (one input per call) entry point of the same family returns
-    for that input"""
+    for that input; a batch call that raises although every per-input call returns a value is a failing input too"""
     try:
         refs = ep.single(b)
     except InfraError:
         raise
-    except Exception as e:  # noqa: BLE001 — e.g. a renamed plain entry point: a correspondence difference
+    except Exception as e:  # noqa: BLE001
+        if seq[0] != "ok":
+            return  # the per-input evaluation raises as well (malformed input): nothing to compare
+        # e.g. a renamed plain entry point: a correspondence difference
         ctx.disagree("plain-entry-point", {"entry_point": ep.name, "batch": b}, f"raises {type(e).__name__}: {e}"[:300],
                      "one result per input")
         return
-    want = ep.per_input(b) if ep.per_input else ep.expected(b)
+    try:
+        want = ep.per_input(b) if ep.per_input else ep.expected(b)
+    except Exception:  # noqa: BLE001 — no oracle value for a malformed batch
+        return
+    if seq[0] != "ok" or (conc[0] != "ok" and kind == "thread" and c >= 1):
+        # the batch raises: a witness when every per-input call of every plain reference returns the oracle value
+        n = batch_len(ep, b)
+        if refs and all(v == want for v in refs.values()) and len(want) == n:
+            label, res, spec = ("sequential path", seq, "none") if seq[0] != "ok" else ("concurrent path", conc, exspec)
+            key = f"batch-raises:{ep.name}"
+            seen = ctx.extra.setdefault("witness_keys", {})
+            seen[key] = seen.get(key, 0) + 1
+            if seen[key] <= 3:
+                ctx.witness(key, f"{ep.name}: the {label} of the batch entry point raises {res[1]} although the plain entry point, "
+                                 "called on each input alone, returns a value for every input",
+                            {"entry_point": ep.name, "batch": b, "executor": spec, "concurrency": c},
+                            {"batch_call": str(res), "per_input_plain_calls": str(next(iter(refs.values())))[:400]})
+        if seq[0] != "ok":
+            return
     for rname, vals in refs.items():
         ctx.count("plain_reference", f"{ep.name}/{rname}")
         ctx.traces += 1
@@ -1347,8 +1389,8 @@ def k2_cases(ctx: Ctx, eps, plan):
         if seq[0] != "ok":
             ctx.count("sequential_raises", seq[1])
         # (1b) the plain non-concurrent public entry points, one call per input, against the batch and the oracle
-        if seq[0] == "ok" and ep.single:
-            judge_single(ctx, ep, b, exspec, c, seq, conc)
+        if ep.single and (seq[0] == "ok" or (n >= 1 and not b.get("malformed"))):
+            judge_single(ctx, ep, b, exspec, c, seq, conc, kind)
         # (2) model prediction of the concurrent outcome
         if seq[0] == "err":
             model = seq  # argument validation precedes execute_concurrently
@@ -1402,16 +1444,18 @@ def k2_plan(ctx: Ctx, eps):
         ep = eps[f"{fam}:paired"]
         b = ep.gen(rng, 4)
         b["ops"] = b["ops"][:3]
+        b["malformed"] = True
         plan.append((ep.name, b, "inline:fwd", 2))
     b = eps["overlap.weighted_sum"].gen(rng, 4)
     b["weights"] = b["weights"][:3]
+    b["malformed"] = True
     plan.append(("overlap.weighted_sum", b, "inline:rev", 2))
     # malformed: one operator of the batch acts on a qubit the states do not have (the worker raises inside one chunk)
     for fam in ("qulacs.vector", "qulacs.dm", "qulacs.general_vector", "stim"):
         for shape in ("paired", "ops-state"):
             ep = eps[f"{fam}:{shape}"]
             b = ep.gen(rng, 5)
-            b["ops"][rng.randrange(5)] = {"terms": [(3, [(b["q"] + 1, 3)]), (1, [(0, 3)])]}
+            b["ops"][rng.randrange(5)] = {"terms": [(3, [(b.get("qmax", b["q"]) + 1, 3)]), (1, [(0, 3)])]}
             plan.append((ep.name, b, rng.choice(["inline:fwd", "inline:shuffle", f"sched:{rng.randrange(10**6)}:0.5", "threads:2"]), rng.randint(2, 4)))
     # malformed: one input of the batch is not a circuit / bound state (worker raises inside one chunk; the same
     # exception must surface on the concurrent path, never a shortened result)
@@ -1910,7 +1954,9 @@ def gen_gs_batch(rng, name, n):
     noise = rng.choice(NOISES) if name not in ("general_vector", "general_vector_ideal") else None
     big = name != "general_noisesim"
     items = []
+    widths, _ = hetero_qs(rng, q, n, hi=3)
     for i in range(n):
+        q = widths[i]
         kind = rng.choice(["circuit", "state", "pcircuit", "pstate"])
         shots = 3 + i if not (big and rng.random() < 0.12) else 1500 + i
         if kind == "circuit":
